@@ -66,6 +66,10 @@ next:
 	switch (*++fp) {
 	default:
 		goto out;
+	case '\0':
+		/* the format ends inside the spec, stay on the terminator */
+		fp--;
+		goto out;
 	case 'F':
 		res.spfl = DT_SPFL_N_DSTD;
 		break;
